@@ -151,6 +151,12 @@ def t_pair(pair, D, N, order, seed):
             r = 0.8
             s = R.FisherKPP(D, L, N, dt, diffusivity=nu, reactivity=r, **kw)
             g = G.GeneralNonlinearStepper(D, L, N, dt, linear_coefficients=(r / D, 0.0, nu), nonlinear_coefficients=(-r, 0.0, 0.0), **kw)
+    elif pair == "deprecated_alias":     # DiffultyLinearStepperSimple (misspelt, deprecated) must build the same stepper
+        import warnings
+        with warnings.catch_warnings():
+            warnings.simplefilter("ignore")
+            s = G.DiffultyLinearStepperSimple(D, N, difficulty=-1.5, order=2)
+        g = G.DifficultyLinearStepperSimple(D, N, difficulty=-1.5, order=2)
     elif pair == "ns_vorticity":
         s = S.NavierStokesVorticity(D, L, N, dt, diffusivity=nu, drag=-0.2, vorticity_convection_scale=b, **kw)
         g = G.GeneralVorticityConvectionStepper(D, L, N, dt, linear_coefficients=(-0.2 / D, 0.0, nu), vorticity_convection_scale=b, **kw)
@@ -166,7 +172,7 @@ def t_pair(pair, D, N, order, seed):
     return _same(s(u), g(u))
 
 
-LINEAR_PAIRS = ["advection", "diffusion", "advection_diffusion", "dispersion", "hyper_diffusion"]
+LINEAR_PAIRS = ["advection", "diffusion", "advection_diffusion", "dispersion", "hyper_diffusion", "deprecated_alias"]
 NONLIN_PAIRS = ["burgers", "burgers_single", "burgers_conservative", "kdv", "ks_conservative", "ks", "fisher", "allen_cahn",
                 "nonlinear_quadratic", "nonlinear_convection", "nonlinear_gradient_norm", "fisher_nonlinear", "swift_hohenberg"]
 
